@@ -72,6 +72,22 @@ CLAIMED = {
          "detector. Found and fixed D4"),
    technique="Lean 4 theorem over all schedules (locked protocol) + torn witness + regenerated lock-region facts + -race differential",
    design='7/C07'),
+ 'C08': dict(
+   text=("Proof (Lean 4) in three layers. (1) The request-body path of the forked HTTP/2 server: models of dataBuffer (chunk "
+         "allocation by size class, read/write cursors) and pipe (close / break / buffer hand-off) REFINE a FIFO byte queue under "
+         "a proved representation invariant: Write appends exactly p, Read returns the oldest min(n, size) bytes (dbuf_write_appends, "
+         "dbuf_read_prefix), for EVERY sequence of writes and reads what was read ++ what is buffered = initial ++ written "
+         "(dbuf_fifo), and for every interleaving of DATA arrivals, body reads and the close the reader gets exactly the accepted "
+         "bytes and only then the close error (pipe_fifo). (2) The request rewrite model (handler.go rewriteFunc + ReverseProxy "
+         "prelude): every end-to-end header keeps all its values in order (end_to_end_headers_unaltered), method, path, query "
+         "unaltered and the Host rule (request_line_unaltered). (3) End to end through the real stack over both protocols with "
+         "bodies up to 5 MiB in arbitrary pieces, trailers and concurrent requests: ORACLE = the pass-through specification. "
+         "dataBuffer/pipe models are tied to the code by an exact differential incl. the chunk structure"),
+   note=("PARTIAL: net/http, httputil.ReverseProxy and the transports are standard-library code (contracts modelled and exercised); "
+         "the response path inside the HTTP/2 server is covered piecewise by C20 (pieces_concatenate), C19 (frame round trip) and the "
+         "end-to-end oracle, not by one theorem. Found and fixed D18 (query re-encoded). Trusted: Lean kernel + standard axioms; harness"),
+   technique="Lean 4 refinement proof (FIFO) + header-rewrite theorems + end-to-end differential with identity oracle",
+   design='7/C08'),
  'C09': dict(
    text=("Proof (Lean 4): X-Forwarded-For = client's list + peer IP, X-Forwarded-Host = client's Host, X-Forwarded-Proto = https iff "
          "the inbound request is marked TLS, client Forwarded never survives (xff_spec, xfh, xfp, no_client_forwarded) for every "
